@@ -264,26 +264,28 @@ theorem putrequest_inv {cfg : Wire.Cfg} {meth url : Str} {sh sa : Bool} {r : Byt
         · simp at e
         · split at e
           · simp at e
-          · rename_i hostL hhost
-            split at e
+          · split at e
             · simp at e
-            · rename_i aeL hae
-              simp only [Except.ok.injEq] at e
-              subst e
-              refine ⟨hostL, ?_, ?_⟩
-              · cases sh with
-                | true => simpa using hhost.symm
-                | false =>
-                  simp only [Bool.false_eq_true, if_false] at hhost ⊢
-                  obtain ⟨a, ha, e2⟩ := Wire.map_ok hhost
-                  exact ⟨a, ha, e2.symm⟩
-              · cases sa with
-                | true => simp at hae; simp [hae]
-                | false =>
-                  simp only [Bool.false_eq_true, if_false] at hae ⊢
-                  obtain ⟨a, ha, e2⟩ := Wire.map_ok hae
-                  subst e2
-                  rw [Wire.hcPutheader_str_value ha]
+            · rename_i hostL hhost
+              split at e
+              · simp at e
+              · rename_i aeL hae
+                simp only [Except.ok.injEq] at e
+                subst e
+                refine ⟨hostL, ?_, ?_⟩
+                · cases sh with
+                  | true => simpa using hhost.symm
+                  | false =>
+                    simp only [Bool.false_eq_true, if_false] at hhost ⊢
+                    obtain ⟨a, ha, e2⟩ := Wire.map_ok hhost
+                    exact ⟨a, ha, e2.symm⟩
+                · cases sa with
+                  | true => simp at hae; simp [hae]
+                  | false =>
+                    simp only [Bool.false_eq_true, if_false] at hae ⊢
+                    obtain ⟨a, ha, e2⟩ := Wire.map_ok hae
+                    subst e2
+                    rw [Wire.hcPutheader_str_value ha]
 
 /-- the three header lines `request` adds to a header-less GET besides `Host` -/
 def aeHdr : Wire.Hdr := (lit "Accept-Encoding", lit "identity")
